@@ -6,15 +6,17 @@
      [2]      Pop() in a new actor; it parks at site 2
      [3; i]   let harness actor i run from its gate to the next gate or to its return
      [4]      drain: the controller itself pops until Pop returns the zero value (at most a bound)
-     9 :: vs  free-running stream (config [1] only, first event): the values vs are pushed and popped by
-              unparked goroutines; afterwards the structure is drained
+     [9; v]   free-running stream (config [1] only): v is one of the values pushed by the stream
+     [10]     the stream ran: unparked goroutines pushed those values and popped concurrently; afterwards
+              the structure was drained
    Observations:
      after 1/2/3: one status code per harness actor
                   1 parked at site 0 (Push before CAS)   2 parked at site 1 (Pop before CAS)
                   3 parked at site 2 (Pop before load)   4 parked at site 3 (Push before load)
                   5 Push returned                        10+v Pop returned v (10 = the zero value)
      after 4:     z :: ds   ds = the non-zero values popped, in order; z = 1 iff the last Pop returned zero
-     after 9:     all non-zero values returned by Pops of the stream and of the final drain, sorted *)
+     after 9:     nothing
+     after 10:    all non-zero values returned by Pops of the stream and of the final drain, sorted *)
 From Util Require Import Common.Base Common.ListLemmas Lifo.Model.
 
 Record hst := { ms : lst; hmap : list nat; hfree : bool }.
@@ -89,13 +91,16 @@ Definition hstep (h : hst) (e : list N) : option (hst * list N) :=
     if hfree h then None
     else let (s', l) := drain (S (length (heap s))) s in
          Some ({| ms := s'; hmap := hmap h; hfree := false |}, 1 :: l)
-  | 9 :: vs =>
-    (* one schedule of the stream (all pushes, then the drain); by conservation every schedule
-       returns the same multiset *)
-    if hfree h && negb (existsb (N.eqb 0) vs) && match acts s with [] => true | _ => false end
-    then let s1 := fold_left push_now vs s in
-         let (s2, l) := drain (S (length (heap s1))) s1 in
-         Some ({| ms := s2; hmap := hmap h; hfree := true |}, isort l)
+  (* the free stream is replayed in ONE schedule of the model (all pushes, then the drain) and compared
+     order-free; by conservation (Proofs.lifo_conservation) every schedule returns the same multiset *)
+  | [9; v] =>
+    if hfree h && negb (N.eqb v 0)
+    then Some ({| ms := push_now s v; hmap := hmap h; hfree := true |}, [])
+    else None
+  | [10] =>
+    if hfree h
+    then let (s', l) := drain (S (length (heap s))) s in
+         Some ({| ms := s'; hmap := hmap h; hfree := true |}, isort l)
     else None
   | _ => None
   end%N.
@@ -151,23 +156,33 @@ Definition apply_op (o : mop) (stk : list N) : option (list N) :=
        | None => Some (tl stk)      (* a pending Pop may have removed the top *)
        end.
 
+(* first-success search with explicit [if] (so that evaluation inside Coq short-circuits too) *)
+Fixpoint find_true {A} (f : A -> bool) (l : list A) : bool :=
+  match l with
+  | [] => false
+  | x :: l' => if f x then true else find_true f l'
+  end.
+
 (* search for a linearization: a sequential LIFO execution that contains every completed operation with
    its result, any subset of the pending ones, and respects the real-time order.  Depth-first, fuelled
-   by the number of operations.  A search, used by the monitor only; never part of a proof. *)
+   by the number of operations.  Used by the monitor only, never inside a proof; that it decides the
+   existence of such an execution is Proofs.lin_search_correct. *)
 Fixpoint lin_search (fuel : nat) (stk : list N) (todo : list mop) : bool :=
   match fuel with
   | 0 => false
   | S f =>
-    forallb (fun o => negb (completed o)) todo ||
-    existsb (fun p : mop * list mop =>
-               let (o, rest) := p in
-               minimal o todo &&
-               match apply_op o stk with
-               | Some stk' => lin_search f stk' rest
-               | None => false
-               end) (picks todo)
+    if forallb (fun o => negb (completed o)) todo then true
+    else find_true (fun p : mop * list mop =>
+                      if minimal (fst p) todo
+                      then match apply_op (fst p) stk with
+                           | Some stk' => lin_search f stk' (snd p)
+                           | None => false
+                           end
+                      else false) (picks todo)
   end.
-Definition linearizable_lifo (ops : list mop) : bool := lin_search (S (length ops)) [] ops.
+(* completed operations are tried first (the order of the list does not change the verdict) *)
+Definition linearizable_lifo (ops : list mop) : bool :=
+  lin_search (S (length ops)) [] (filter completed ops ++ filter (fun o => negb (completed o)) ops).
 
 (* status vector -> responses *)
 Fixpoint upd_ops (k : nat) (ops : list mop) (o : list N) : list mop :=
@@ -216,8 +231,13 @@ Definition max_search_ops : nat := 10.
 Definition lmon (m : lmst) (e o : list N) : lmst * list (nat * nat) :=
   let k := m_clock m in
   match e with
-  | 9%N :: vs =>
-    (m, (if msub vs o then [] else [(12, 3)]) ++ (if msub o vs then [] else [(12, 4)]))
+  | [9%N; v] =>
+    ({| m_ops := m_ops m ++ [{| mo_push := true; mo_val := v; mo_inv := k; mo_res := Some (S k, 0%N) |}];
+        m_drain := m_drain m; m_clock := k + 2 |}, [])
+  | [10%N] =>
+    ({| m_ops := []; m_drain := []; m_clock := k + 2 |},
+     (if msub (pushed_completed (m_ops m)) o then [] else [(12, 3)]) ++
+     (if msub o (pushed_invoked (m_ops m)) then [] else [(12, 4)]))
   | [4%N] =>
     let z := match o with 1 :: _ => true | _ => false end%N in
     let ds := tl o in
